@@ -77,6 +77,8 @@ def gen_cases(rng, tier, rnd):
             # object-lifetime history: compare, edit one of the two live objects in place, compare again
             which = rng.choice(['d1', 'd2'])
             case['edit'] = [which, edits.propose(rng, case[which])]
+        if rng.random() < 0.2:
+            case['prelude'] = edits.twin(rng, case['d2'])     # D1 is compared with a twin of D2 earlier in the same interpreter
         cases.append(case)
     return cases
 
@@ -84,6 +86,13 @@ def gen_cases(rng, tier, rnd):
 def run_case(case, env):
     D1, D2 = build(case['d1']), build(case['d2'])
     out = {'viol': [], 'evals': 0, 'ticks': 0, 'probes': {}, 'hist': {}}
+    if case.get('prelude'):
+        T = build(case['prelude'])
+        for fn in FUNCS:
+            st, val, ticks = call(env, getattr(da, fn), D1, T, budget=BUDGET)
+            st, val, t2 = call(env, getattr(da, fn), T, D1, budget=BUDGET)
+            out['ticks'] += ticks + t2
+        out['probes']['earlier_calls_on_a_twin'] = 1
     dig = []
     phases = ['fresh'] + (['after-inplace-edit'] if case.get('edit') else [])
     for phase in phases:
@@ -138,10 +147,11 @@ def run_case(case, env):
 
 
 def shrink(case):
-    if case.get('edit'):
-        c = copy.deepcopy(case)
-        del c['edit']
-        yield c
+    for key in ('edit', 'prelude'):
+        if case.get(key):
+            c = copy.deepcopy(case)
+            del c[key]
+            yield c
     for which in ('d1', 'd2'):
         for t in genfa.shrink_dfa(case[which], drop_symbols=False):
             c = copy.deepcopy(case)
